@@ -33,6 +33,14 @@ def seeded_table():
     return "\n".join(rows)
 
 
+def fixed_table():
+    k = json.load(open(os.path.join(ROOT, "known_findings.json")))
+    rows = ["| property | commit | what failed |", "|---|---|---|"]
+    for f in k["fixed"]:
+        rows.append(f"| {f['property']} | {f['commit']} | {f['what'].replace('|', '/')} |")
+    return len(k["fixed"]), "\n".join(rows)
+
+
 def main():
     p = os.path.join(ROOT, "DESIGN.md")
     s = open(p).read()
@@ -43,6 +51,8 @@ def main():
     if os.path.exists(ep):
         extra = "\n" + open(ep).read()
     tail = tail.replace("SEEDED_TABLE", seeded_table() + extra)
+    nfix, ftab = fixed_table()
+    tail = tail.replace("FIXED_TABLE", ftab).replace("FIXED_COUNT", str(nfix))
     open(p, "w").write(head + tail)
     print("DESIGN.md rebuilt:", len((head + tail).splitlines()), "lines")
 
